@@ -333,6 +333,9 @@ func (ex *Exec) modCall(m *ModSet, call *ast.CallExpr, depth int) {
 			for _, a := range c.Assigns {
 				ex.modAssignsTarget(m, a, callee, call)
 			}
+			if externClass(callee) == "deserialiser" {
+				ex.modExternDefault(m, callee, call)
+			}
 			return
 		}
 		m.alloc = true
@@ -354,19 +357,119 @@ func (ex *Exec) modCall(m *ModSet, call *ast.CallExpr, depth int) {
 	m.alloc = true
 }
 
-// modExternDefault: library functions without a contract may write through
-// []byte arguments only when they are known writers; otherwise they are heap-neutral.
-func (ex *Exec) modExternDefault(m *ModSet, callee *types.Func, call *ast.CallExpr) {
+// Library functions without a contract, by what they may write through their arguments
+// (assumptions, listed in the evidence):
+//
+//	pure        do not write through arguments (strings, bytes, strconv, unicode, fmt, log, time,
+//	            regexp, sort handled separately, the read side of encoding/binary, ...)
+//	byte writers write the elements of their slice arguments
+//	deserialisers (encoding/xml Decode, DecodeElement, Unmarshal) write everything reachable
+//	            by type from their pointer arguments
+//	anything else: slice arguments' elements and everything reachable from pointers to package types
+var externPurePrefixes = []string{"strings.", "(*strings.", "bytes.", "strconv.", "unicode.", "unicode/utf8.", "fmt.", "log.", "time.", "(time.", "(*time.",
+	"(*regexp.", "regexp.", "sort.", "errors.", "math.", "math/bits.", "path/filepath.", "os.", "(*os.File).Close", "context.",
+	"(encoding/binary.bigEndian).Uint", "(encoding/binary.littleEndian).Uint", "(golang.org/x/text/unicode/norm.Form).",
+	"github.com/asticode/go-astikit.", "(*github.com/asticode/go-astikit.", "(github.com/asticode/go-astits.", "(*github.com/asticode/go-astits.", "github.com/asticode/go-astits.",
+	"golang.org/x/net/html.", "(*golang.org/x/net/html.", "(golang.org/x/net/html.", "(*bufio.Scanner).", "bufio.", "(*encoding/xml.Encoder).", "encoding/xml.New", "encoding/xml.Escape",
+	"(*encoding/xml.Decoder).Token", "(encoding/xml.TokenReader).Token", "io.", "(io.", "(*bytes.", "(error).Error", "html.", "(*encoding/xml.Decoder).Skip"}
+
+var externDeserialisers = []string{"(*encoding/xml.Decoder).Decode", "(*encoding/xml.Decoder).DecodeElement", "encoding/xml.Unmarshal", "encoding/json.Unmarshal", "(*encoding/json.Decoder).Decode"}
+
+func externClass(callee *types.Func) string {
 	full := callee.FullName()
-	writers := []string{"io.ReadFull", "(io.Reader).Read", "encoding/binary", "copy", "(*bufio.Reader).Read", "sort."}
-	for _, w := range writers {
-		if strings.Contains(full, w) {
-			for _, a := range call.Args {
-				if sl, ok := ex.typeOf(a).Underlying().(*types.Slice); ok {
-					ex.modElemHeaps(m, sl.Elem())
-				}
+	for _, d := range externDeserialisers {
+		if full == d {
+			return "deserialiser"
+		}
+	}
+	if strings.Contains(full, "encoding/binary.") && strings.Contains(full, ").Put") {
+		return "bytewriter"
+	}
+	for _, p := range externPurePrefixes {
+		if strings.HasPrefix(full, p) {
+			return "pure"
+		}
+	}
+	return "unknown"
+}
+
+func (ex *Exec) modExternDefault(m *ModSet, callee *types.Func, call *ast.CallExpr) {
+	switch externClass(callee) {
+	case "pure":
+		return
+	case "bytewriter":
+		for _, a := range call.Args {
+			if sl, ok := ex.typeOf(a).Underlying().(*types.Slice); ok {
+				ex.modElemHeapsAt(m, sl.Elem(), a)
 			}
 		}
+	case "deserialiser":
+		m.alloc = true
+		tmp := newModSet()
+		for _, a := range call.Args {
+			ex.modReachable(tmp, ex.typeOf(a), map[string]bool{}, true)
+		}
+		for h, srt := range tmp.heaps {
+			m.heaps[h] = srt
+			m.whole[h] = true
+			m.noFrame[h] = true
+		}
+	default:
+		m.alloc = true
+		for _, a := range call.Args {
+			t := ex.typeOf(a)
+			if sl, ok := t.Underlying().(*types.Slice); ok {
+				ex.modElemHeapsAt(m, sl.Elem(), a)
+				continue
+			}
+			ex.modReachable(m, t, map[string]bool{}, false)
+		}
+	}
+}
+
+// modReachable: every heap array a callee holding a value of type t could write (by type).
+// top: the value itself is a pointer handed to the callee (its pointee is written).
+func (ex *Exec) modReachable(m *ModSet, t types.Type, seen map[string]bool, top bool) {
+	if t == nil {
+		return
+	}
+	k := types.TypeString(t, nil)
+	if seen[k] {
+		return
+	}
+	seen[k] = true
+	switch u := t.Underlying().(type) {
+	case *types.Pointer:
+		el := u.Elem()
+		if isOpaqueStruct(el) {
+			return
+		}
+		if _, isStruct := el.Underlying().(*types.Struct); isStruct {
+			ex.modStructHeaps(m, el)
+		} else {
+			for _, c := range flatten(el) {
+				name := "B$" + typeKey(el) + c.Path
+				markRefHolding(name, c, false)
+				m.heaps[name] = SArr(SInt, c.Sort)
+				m.whole[name] = true
+			}
+		}
+		ex.modReachable(m, el, seen, false)
+	case *types.Struct:
+		if isOpaqueStruct(t) {
+			return
+		}
+		for i := 0; i < u.NumFields(); i++ {
+			ex.modReachable(m, u.Field(i).Type(), seen, false)
+		}
+	case *types.Slice:
+		ex.modElemHeaps(m, u.Elem())
+		ex.modReachable(m, u.Elem(), seen, false)
+	case *types.Array:
+		ex.modReachable(m, u.Elem(), seen, false)
+	case *types.Map:
+		ex.modMapHeaps(m, t)
+		ex.modReachable(m, u.Elem(), seen, false)
 	}
 }
 
